@@ -32,7 +32,7 @@ _BASE = {}
 def _cfg(params, calls, stuck=()):
     return dict(backend=params["backend"], n_workers=2, pre_dispatch=params.get("pre_dispatch", 2),
                 batch_size=1, return_as=params["return_as"], calls=calls, stuck_tasks=[(0, s) for s in stuck],
-                use_with=params.get("use_with", False))
+                use_with=params.get("use_with", False), warn_raises=params.get("warn_raises", False))
 
 
 def prepare(params):
@@ -141,6 +141,66 @@ def ob_abandon(pulls: int, pos0: int, pk: int) -> bool:
             probs.append("only %d of 2 calls finished" % len(o.calls))
         for m in probs:
             H.note("pulls=%d end=%s overlap=%r preempt=%r: %s" % (pl, ["close", "drop", "exhaust"][en], ov, pre, m))
+        return H.verdict(not probs)
+
+
+def ob_foreign_close(pulls: int, dk: int, pos0: int) -> bool:
+    """
+    pre: 0 <= pulls <= 3
+    pre: 0 <= dk <= 9
+    pre: -1 <= pos0 <= 600
+    post: _
+    """
+    H.enter()
+    # The generator is closed (or collected) by a thread that did not call Parallel: joblib detaches the abort to a
+    # thread of its own (_GeneratorExitThread).  dk = -1: that thread runs before anything else happens; dk = k: it
+    # only gets the CPU k switch points later - possibly in the middle of the next call.
+    steps = _BASE["steps"]
+    H.assume(pos0 <= steps)
+    H.assume(pos0 == -1 or pos0 % 4 == 0)
+    pl = [0, 1, 3, 5][H.select(pulls, 0, 3)]
+    dkv, p0 = [-1, 0, 2, 4, 8, 12, 16, 24, 32, 40][H.select(dk, 0, 9)], H.select_bisect(pos0, -1, steps)
+    ordered = H.P("return_as") == "generator"
+    with H.native():
+        n = 6
+        calls = [dict(n_tasks=n, pulls=pl, end="close_other_thread", deferred_at=None if dkv < 0 else dkv),
+                 dict(n_tasks=3), dict(n_tasks=2, run_deferred_before=True)]
+        pre = [(p0, 0)] if p0 >= 0 else []
+        o = parlib.run(_cfg(H.PARAMS, calls), dict(preempt=pre, picks=[]))
+        probs = _common(o)
+        derr = [e for e in o.detached_errors if not (H.P("warn_raises", False) and e.startswith("UserWarning"))]
+        if derr:
+            probs.append("the detached abort thread raised: %r" % (derr,))
+        if len(o.calls) == 3:
+            r0, r1, r2 = o.calls
+            if r0["exc"] is not None:
+                probs.append("first call raised %r" % (r0["exc"],))
+            elif ordered and r0["result"] != [(0, i) for i in range(pl)]:
+                probs.append("pulled %r" % (r0["result"],))
+            if r0.get("detached_threads", 0) == 0 and "close_raised" not in r0:
+                probs.append("no detached abort thread was started")
+            # closing stops further dispatch: the input of the closed run is not consumed any further
+            if r0["tasks"].i > r0["taken_total"] + 2:          # (a look-ahead chunk in progress may complete)
+                probs.append("the input of the closed run went from %d to %d items taken after close() returned" % (
+                    r0["taken_total"], r0["tasks"].i))
+            want1 = [(1, i) for i in range(3)]
+            if r1["exc"] is not None:
+                busy = isinstance(r1["exc"], RuntimeError) and "already running" in str(r1["exc"])
+                if not (busy and r1.get("deferred_pending_at_start")):
+                    probs.append("second call raised %r" % (r1["exc"],))
+            elif (list(r1["result"]) if ordered else sorted(r1["result"])) != want1:
+                probs.append("second call (started while the detached abort of the first was %s) returned %r" % (
+                    "pending" if r1.get("deferred_pending_at_start") else "over", r1["result"]))
+            if r1["exc"] is None and sorted(x for x in o.exec_log if x[0] == 1) != want1:
+                probs.append("second call executed %r" % ([x for x in o.exec_log if x[0] == 1],))
+            if r2["exc"] is not None:
+                probs.append("the object is not reusable after the detached abort has finished: %r" % (r2["exc"],))
+            elif (list(r2["result"]) if ordered else sorted(r2["result"])) != [(2, i) for i in range(2)]:
+                probs.append("third call returned %r" % (r2["result"],))
+        else:
+            probs.append("only %d of 3 calls finished" % len(o.calls))
+        for m in probs:
+            H.note("pulls=%d detached thread delayed by %r switch points, preempt=%r: %s" % (pl, None if dkv < 0 else dkv, pre, m))
         return H.verdict(not probs)
 
 
@@ -279,4 +339,11 @@ def obligations(tier, seed):
         obs.append({"name": "unordered/%s" % be, "fn": "ob_unordered", "mode": "S",
                     "params": {"backend": be, "return_as": "generator_unordered", "pre_dispatch": 3}, "timeout": 600,
                     "bounds": "1/3/5 tasks, one pre-emption anywhere, 2x2 picks"})
+    for be, ra, uw, wr in [("threading", "generator", False, False), ("loky", "generator_unordered", True, True),
+                           ("stub_cb", "generator", True, False)]:
+        obs.append({"name": "foreign_close/%s/%s/with=%s/werror=%s" % (be, ra, uw, wr), "fn": "ob_foreign_close", "mode": "S",
+                    "params": {"backend": be, "return_as": ra, "use_with": uw, "warn_raises": wr}, "timeout": 900,
+                    "bounds": "6 tasks, 0/1/3/5 pulls, then close() from a foreign thread; joblib's detached abort thread gets "
+                              "the CPU at once or 0..40 switch points later (in the caller's timeline, lock free); a 3-task "
+                              "call meanwhile, a 2-task call afterwards; one pre-emption at every 4th switch point"})
     return obs
